@@ -57,7 +57,7 @@ Del(f, k) == [x \in DOMAIN f \ {k} |-> f[x]]
 StartOfId(i) == IF i \in DOMAIN st /\ st[i].id = i THEN i      \* the drivers number start instances by their id
                 ELSE IF \E s \in DOMAIN st : st[s].id = i THEN CHOOSE s \in DOMAIN st : st[s].id = i ELSE 0
 InCb(p) == Len(Get(cbs, p, <<>>)) > 0
-InFlight(i) == StartOfId(i) # 0 /\ i \notin ended /\ st[StartOfId(i)].ret \in {"none", "nil", "wait"}
+InFlight(i) == StartOfId(i) # 0 /\ i \notin ended /\ st[StartOfId(i)].ret \in {"none", "nil", "wait"} /\ ~st[StartOfId(i)].ind
 WindowOpenFor(i) == \E p \in DOMAIN win : win[p].id = i
 \* a timeout callback for i is in progress in some goroutine (between the client-table delete and the write)
 InTimeoutCallback(i) == \E p \in DOMAIN cbs : Len(cbs[p]) > 0 /\ cbs[p][Len(cbs[p])].id = i /\ cbs[p][Len(cbs[p])].kind = "timeout"
@@ -87,7 +87,7 @@ Step(n, e) ==
                     free |-> (Has(e, "free") /\ e.free)]
          /\ Fresh
     [] e.k = "start_call" ->
-         /\ st' = Set(st, e.s, [id |-> e.id, line |-> n, ret |-> "none", do |-> (Has(e, "do") /\ e.do), fin |-> 0, calls |-> 0, afterClose |-> closeRet, t0 |-> e.t, rto |-> cfg.rto])
+         /\ st' = Set(st, e.s, [id |-> e.id, line |-> n, ret |-> "none", do |-> (Has(e, "do") /\ e.do), ind |-> (Has(e, "ind") /\ e.ind), fin |-> 0, calls |-> 0, afterClose |-> closeRet, t0 |-> e.t, rto |-> cfg.rto])
          /\ UNCHANGED << cfg, ws, ended, cbs, win, closeRet, closeOK, connCloses, lastDel, exited, lastNow, pendGarbage, cbSeen, k4, k2, pend, closing, texit >>
     [] e.k = "start_ret" ->
          LET s == st[e.s] IN
@@ -167,7 +167,10 @@ Step(n, e) ==
          /\ win' = IF retx THEN Del(win, e.p) ELSE win
          /\ k4' = IF ~retx /\ ~e.ok /\ i \in cbSeen THEN k4 \cup {i} ELSE k4
          /\ k2' = IF i \in ended /\ k >= 1 /\ e.p \in DOMAIN win /\ ~win[e.p].endedBefore THEN k2 \cup {i} ELSE k2
-         /\ UNCHANGED << cfg, st, ended, cbs, closeRet, closeOK, connCloses, lastDel, exited, lastNow, pendGarbage, cbSeen, pend, closing, texit >>
+         \* a retransmission that fails takes the transaction out of the client table again (c.delete) before its
+         \* handler gets the error: K3's window is open once more until the callback ends
+         /\ cbs' = IF retx /\ ~e.ok THEN Set(cbs, e.p, [cbs[e.p] EXCEPT ![Len(cbs[e.p])] = [@ EXCEPT !.rereg = FALSE]]) ELSE cbs
+         /\ UNCHANGED << cfg, st, ended, closeRet, closeOK, connCloses, lastDel, exited, lastNow, pendGarbage, cbSeen, pend, closing, texit >>
     [] e.k = "handler" ->
          LET s == st[e.s]
              i == s.id
@@ -267,7 +270,7 @@ Step(n, e) ==
          \* quiescence: Close returned and every Start returned
          /\ (On("C10") /\ closeRet /\ \A s \in DOMAIN st : st[s].ret # "none") =>     \* ("wait": a Do whose Start returned nil)
               \A s \in DOMAIN st :
-                /\ ((st[s].ret \in {"nil", "wait"}) => Require(st[s].calls = 1, n, "handler-never-invoked",
+                /\ ((st[s].ret \in {"nil", "wait"} /\ ~st[s].ind) => Require(st[s].calls = 1, n, "handler-never-invoked",
                                                [s |-> s, calls |-> st[s].calls, closed |-> closeRet]))
                 /\ ((st[s].ret = "wait" /\ st[s].fin >= 1) => Require(FALSE, n, "do-did-not-return-after-its-handler",
                                                [s |-> s, calls |-> st[s].calls, finished |-> st[s].fin]))
